@@ -532,6 +532,7 @@ async fn scenario(v: &Variant, fault: Option<(char, u64, String)>) {
         });
         let mut obs: ObservableVec<u32> = ObservableVec::new();
         obs.push(1);
+        tr("put obs - 1".into());
         let sub = obs.subscribe(8);
         let owner = Owner::new(7u32);
         let rw = owner.rw_lock();
@@ -696,8 +697,9 @@ async fn scenario(v: &Variant, fault: Option<(char, u64, String)>) {
     settle(&ops).await;
     if let Some(a) = &mut a {
         a.obs.push(2);
+        tr("put obs - 2".into());
         a.obs.push(3);
-        tr("note A obs push 2,3".into());
+        tr("put obs - 3".into());
     }
     if let Some(b) = &b {
         let m = b.mirror.clone();
@@ -740,7 +742,7 @@ async fn scenario(v: &Variant, fault: Option<(char, u64, String)>) {
         // back pressure: B never receives on m3
         let tx = a.m3_tx.clone();
         ops.start("p3", 'A', "mpsc-fill", "ch=m3", async move {
-            for i in 0..100_000u32 {
+            for i in 0..400u32 {
                 tr(format!("put m3 a {i}"));
                 if let Err(e) = tx.send(i).await {
                     return cls(&e.without_item());
@@ -843,7 +845,7 @@ async fn scenario(v: &Variant, fault: Option<(char, u64, String)>) {
         ops.lr_send("l8s", 'A', "lr1", &a.lr1_tx, 32);
         ops.lr_recv("l8r", 'A', "lr2", &a.lr2_rx);
         a.obs.push(4);
-        tr("note A obs push 4".into());
+        tr("put obs - 4".into());
     }
     if let Some(b) = &b {
         ops.mpsc_send("l1b", 'B', "m2", "a", &b.m2_tx, 12);
@@ -959,7 +961,11 @@ fn main() {
                 let vseed = rng.next_u64();
                 let v = variant(&mut Rng::new(vseed), w);
                 let base = run(&v, None);
-                let count = |side: &str| base.iter().filter(|l| l.starts_with(&format!("tx {side} "))).count() as u64;
+                // cut points: every item put on a wire before the calls of the `later` phase start (what follows
+                // is an hour of keep-alive pings)
+                let upto = base.iter().position(|l| l == "phase later").unwrap_or(base.len());
+                let count =
+                    |side: &str| base[..upto].iter().filter(|l| l.starts_with(&format!("tx {side} "))).count() as u64;
                 let (fa, fb) = (count("A"), count("B"));
                 eprintln!("STAT baseline_items_A {fa}");
                 eprintln!("STAT baseline_items_B {fb}");
